@@ -106,41 +106,51 @@ fn wellformed(r: &mut Rng) -> (&'static str, String) {
             ("crypt-sha", format!("{{{}}}${id}${rounds}{}${}", case_variant(r, "crypt"), h64s(r, sl), h64s(r, hl)))
         }
         13 | 14 => {
-            let alg = *r.pick(&["argon2id", "argon2id", "argon2id", "argon2id", "argon2i", "argon2d", "Argon2id", ""]);
-            let ver = match r.below(8) {
-                0 => "".to_string(),
-                1 => "v=16$".into(),
-                2 => "v=18$".into(),
-                3 => "v=019$".into(),
-                4 => "v=$".into(),
-                _ => "v=19$".into(),
+            // mostly canonical PHC strings; one hostile choice at a time otherwise
+            let hostile = if r.chance(55, 100) { 0 } else { r.range(1, 6) };
+            let alg = if hostile == 1 { *r.pick(&["argon2i", "argon2d", "Argon2id", "", "argon2id-x", "scrypt"]) } else { "argon2id" };
+            let ver = if hostile == 2 {
+                r.pick(&["v=18$", "v=019$", "v=$", "v=1,9$", "v=4294967296$", "V=19$"]).to_string()
+            } else {
+                r.pick(&["v=19$", "v=19$", "v=19$", "v=16$", ""]).to_string()
             };
             let mut params = vec![format!("m={}", r.range(8, 70000)), format!("t={}", r.range(1, 5)), format!("p={}", r.range(1, 4))];
-            match r.below(12) {
-                0 => {
-                    params.remove(r.below(3) as usize);
+            if hostile == 3 {
+                match r.below(9) {
+                    0 => {
+                        params.remove(r.below(3) as usize);
+                    }
+                    1 => params[0] = "m=08".into(),
+                    2 => params[1] = "t=x".into(),
+                    3 => params.push("m=9".into()),
+                    4 => params[2] = "p".into(),
+                    5 => params[0] = "M=64".into(),
+                    6 => params[1] = "t=4294967296".into(),
+                    7 => params[2] = "p=1=2".into(),
+                    _ => params.insert(0, "m=".into()),
                 }
-                1 => params.push("keyid=Zm9v".into()),
-                2 => params.push("data=".into()),
-                3 => r.shuffle(&mut params),
-                4 => params[0] = "m=08".into(),
-                5 => params[1] = "t=x".into(),
-                6 => params.push("m=9".into()),
-                7 => params[2] = "p".into(),
-                8 => params[0] = "M=64".into(),
-                _ => {}
+            } else {
+                match r.below(6) {
+                    0 => params.push("keyid=Zm9v".into()),
+                    1 => params.push("data=".into()),
+                    2 => r.shuffle(&mut params),
+                    _ => {}
+                }
             }
-            let sl = *r.pick(&[8usize, 16, 16, 16, 2, 3, 4, 48, 49, 0]);
-            let kl = *r.pick(&[32usize, 32, 32, 9, 10, 11, 64, 65, 16, 0]);
+            let sl = if hostile == 4 { *r.pick(&[2usize, 0, 49, 1]) } else { *r.pick(&[3usize, 8, 16, 16, 16, 24, 48]) };
+            let kl = if hostile == 5 { *r.pick(&[9usize, 65, 0, 1]) } else { *r.pick(&[10usize, 16, 32, 32, 32, 64]) };
             let salt = b64(STD, false, &r.bytes(sl));
-            let key = b64(STD, r.chance(1, 12), &r.bytes(kl));
-            let tail = match r.below(10) {
-                0 => format!("${salt}"),
-                1 => String::new(),
-                2 => format!("${salt}${key}$extra"),
-                _ => format!("${salt}${key}"),
+            let key = b64(STD, hostile == 6 && r.chance(1, 2), &r.bytes(kl));
+            let tail = if hostile == 6 {
+                match r.below(3) {
+                    0 => format!("${salt}"),
+                    1 => String::new(),
+                    _ => format!("${salt}${key}$extra"),
+                }
+            } else {
+                format!("${salt}${key}")
             };
-            ("argon2", format!("{{{}}}$${alg}${ver}{}{tail}", case_variant(r, "argon2"), params.join(",")).replacen("$$", "$", 1))
+            ("argon2", format!("{{{}}}${alg}${ver}{}{tail}", case_variant(r, "argon2"), params.join(",")))
         }
         15 => {
             let tag = *r.pick(&["pbkdf2_sha256", "md5", "smd5", "cleartext", "bcrypt", "", "sha1", "ssha384", "PB\u{212a}DF2-SHA256", "CRYPT\u{0130}", "\u{17f}ha"]);
